@@ -8,6 +8,7 @@ import (
 	"net"
 	"sort"
 	"strings"
+	"sync"
 	"time"
 
 	"verif.local/engine/evidence"
@@ -57,12 +58,29 @@ func c14Seq(horizonNS int64, fn func(e *vsched.Exec) string) (clause string) {
 }
 
 // c14Addr is a cheap net.Addr whose String() is the source identity Gecko keys on.
-type c14Addr string
+//
+// Sources are real *net.UDPAddr values that all share ONE IP address and differ in the port — two
+// clients behind one NAT — because that is what the socket hands to Gecko and what a per-source
+// key must tell apart (the first version used a string-typed net.Addr, which hid the independently
+// seeded change C14-3: reassembly keyed by the IP alone). Labels map to ports in first-use order.
+var (
+	c14AddrMu    sync.Mutex
+	c14AddrByLbl = map[string]*net.UDPAddr{}
+)
 
-func (a c14Addr) Network() string { return "udp" }
-func (a c14Addr) String() string  { return string(a) }
+func c14Addr(label string) *net.UDPAddr {
+	c14AddrMu.Lock()
+	defer c14AddrMu.Unlock()
+	if a := c14AddrByLbl[label]; a != nil {
+		return a
+	}
+	i := len(c14AddrByLbl)
+	a := &net.UDPAddr{IP: net.IPv4(10, 14, byte(i/64000), 1), Port: 1024 + i%64000}
+	c14AddrByLbl[label] = a
+	return a
+}
 
-const c14Sentinel = c14Addr("sentinel")
+var c14Sentinel = c14Addr("sentinel")
 
 // c14Frame encodes one Gecko fragment frame from the documented wire layout (written from the
 // layout comment / property text, not by calling encodeFrame): 0x80, msgID, idx<<4|total,
@@ -140,7 +158,7 @@ func c14Drain(g net.PacketConn, in *vnet.PacketConn, sentinel []byte, buf []byte
 		if err != nil {
 			return got, "ReadFrom error: " + err.Error()
 		}
-		if addr != nil && addr.String() == string(c14Sentinel) {
+		if addr != nil && addr.String() == c14Sentinel.String() {
 			if n != 1 || buf[0] != 0x00 {
 				return got, fmt.Sprintf("sentinel short-header packet came back changed (%d bytes)", n)
 			}
